@@ -11,7 +11,7 @@
      Node tag l    a container or eqx.Module: tag = class + static fields + keys, l = children in
                    flattening order
      W k l         an AbstractUnwrappable; l = its dynamic fields in field order, INCLUDING _dummy
-                   for the classes that have one (BijectionReparam, Lambda).
+                   for the classes that have one (BijectionReparam, Where, Lambda).
    Part 1 is generic in the leaf values V, the static payload S, the tags T and the wrapper labels K,
    and in what applying a wrapper to its (already unwrapped) children returns.  Part 2 instantiates the
    wrappers' value semantics generically over NumOps (run with OCaml floats). *)
@@ -529,10 +529,15 @@ Section Num.
     match snd k with
     | NonTrainable =>   (* lax.stop_gradient on the arrays of the subtree: the value is unchanged *)
         match l with [x] => Some x | _ => None end
-    | Where =>
+    | Where =>          (* jnp.where(cond, if_true, if_false), vectorised over the axes of _dummy *)
         match l with
-        | [Arr kc cnd; Arr kx x; Arr ky y] =>
-            match where3 cnd x y with Some r => Some (Arr (promote kx ky) r) | None => None end
+        | [_; _; _; Arr _ d] =>
+            vmapn (tshape d)
+                  (fun l => match l with
+                            | [Arr kc cnd; Arr kx x; Arr ky y; _] =>
+                                match where3 cnd x y with Some r => Some (Arr (promote kx ky) r) | None => None end
+                            | _ => None
+                            end) l
         | _ => None
         end
     | WeightNorm =>
